@@ -239,6 +239,22 @@ func runCertSign(c *hx.Ctx) {
 	}
 	doNormalize()
 
+	// zero-length constraints: a /0 covers its own family only. Requests of the same and of the other family
+	for _, ca := range u.cas {
+		if !(strings.HasPrefix(ca.kind, "un0") || strings.HasPrefix(ca.kind, "net0")) {
+			continue
+		}
+		for _, mode := range []int{cvMInside, cvMOutFamily, cvMOutAdjacent} {
+			o := cvLeafOpt{version: cert.Version2, curve: ca.c.Curve(), groups: cvMNone, nets: cvMInside, unsafe: cvMNone, signKey: ca.key}
+			if strings.HasPrefix(ca.kind, "un0") {
+				o.unsafe = mode
+			} else {
+				o.nets = mode
+			}
+			emitSign("zero-prefix", ca.c, ca.name, ca.key, ca.key, ca.key.curve, cvLeafTBS(c, u, ca, o), mode == cvMInside)
+		}
+	}
+
 	// ---- 2b. ONE TBSCertificate object signed several times in a row (CA rotation re-issue): different signers
 	// of the same curve, and self-signing in between with the CA flag flipped on the same object. After EACH
 	// signature: issuer == that signer's fingerprint and the real VerifyCertificate against a pool of that
@@ -342,7 +358,7 @@ func runCertSign(c *hx.Ctx) {
 		if c.Chance(0.35) { // cross the constraints
 			o.groups = pick3(cvMInside, cvMEdge, cvMOutAdjacent, cvMNone)
 			o.nets = pick3(cvMInside, cvMEdge, cvMOutWider, cvMOutAdjacent, cvMOutFamily)
-			o.unsafe = pick3(cvMInside, cvMEdge, cvMOutWider, cvMOutAdjacent, cvMNone, cvMNone)
+			o.unsafe = pick3(cvMInside, cvMEdge, cvMOutWider, cvMOutAdjacent, cvMOutFamily, cvMNone, cvMNone)
 			o.window = []int{0, 0, 0, 4, 4, 1, 1, 2, 3, 5}[c.Intn(10)]
 		} else { // inside or exactly on the edge in every dimension
 			o.groups = []int{cvMInside, cvMEdge, cvMNone}[c.Intn(3)]
@@ -489,9 +505,11 @@ func runCertSign(c *hx.Ctx) {
 	}
 	cliCAs := []cliCA{
 		{"25519", "", "", "", 2, "100h"},
-		{"P256", "", "", "", 2, "100h"},
+		{"25519", "", "", "0.0.0.0/0", 2, "100h"}, // a /0 unsafe constraint of one family
 		{"25519", "a,b,ops", "10.0.0.0/8,fd00::/8", "172.16.0.0/12", 2, "1000h"},
 		{"P256", "a,web", "10.42.0.0/16", "10.42.0.0/16,192.0.2.0/24", 1, "1000h"},
+		{"P256", "", "10.0.0.0/0", "::/0", 2, "100h"}, // /0 network constraint (v4), /0 unsafe constraint (v6)
+		{"P256", "", "", "", 2, "100h"},
 		{"25519", "a", "192.168.0.0/16", "", 1, "50h"},
 		{"P256", "ops", "fd42:1::/64,10.1.0.0/16", "2001:db8::/32", 2, "50h"},
 	}
@@ -500,7 +518,7 @@ func runCertSign(c *hx.Ctx) {
 		version                   int
 	}
 	if c.Tier != "thorough" {
-		cliCAs = cliCAs[:4]
+		cliCAs = cliCAs[:5]
 	}
 	type cliOut struct {
 		lit, kind string
@@ -596,6 +614,8 @@ func runCertSign(c *hx.Ctx) {
 				{inGroup, inNets, "198.51.100.0/24", "", 0},
 				{inGroup, inNets, "", "2000h", 0},
 				{inGroup, inNets, "", "", 3 - ca.version},
+				{inGroup, inNets, "fd00:1::/48", "", 0},
+				{inGroup, "fd00:7::7/64", "", "", 0},
 			}
 			for j, lf := range leaves {
 				if lf.nets == "" {
@@ -677,9 +697,9 @@ func runCertSign(c *hx.Ctx) {
 	if len(failures) > 0 {
 		cw.Meta("failures", failures)
 	}
-	cw.Close("p256.Normalize/Swap/IsNormalized on edge and random s; TBSCertificate.Sign and SignWith over 28 signer CAs x TBS crossing each constraint " +
+	cw.Close("p256.Normalize/Swap/IsNormalized on edge and random s; TBSCertificate.Sign and SignWith over 52 signer CAs (incl. zero-length network / unsafe-network constraints of one or both families) x TBS crossing each constraint " +
 		"(inside/edge/outside), CA flag, self-signing, key of another CA, key of the other curve than the signer certificate's (known finding F23, emitted first), key-vs-TBS curve mismatch, unknown version/curve, every validate rule; " +
 		"one TBSCertificate object signed 2-4 times in a row by different signers / self (re-issue), each result checked like a fresh one; " +
 		"each issued certificate verified with the real VerifyCertificate against a pool of its signer at nb, na, middle, nb-1ns, na+1ns and checked for low-S; " +
-		"nebula-cert ca / sign binary on 6 CAs x 8 requests; non-trivial = certificate issued (or 0 < s < n); distinct by literal")
+		"nebula-cert ca / sign binary on 5 (thorough: 8) CAs x up to 10 requests (incl. `ca -unsafe-networks 0.0.0.0/0` + `sign -unsafe-networks fd00:1::/48`); non-trivial = certificate issued (or 0 < s < n); distinct by literal")
 }
